@@ -21,12 +21,19 @@ def prepare_build(repo, bdir):
 _desc = mmo_overlay.describe(ID)
 
 RULE = ("Units of 1/8. exhaustive: every op sequence of length <= 3 (quick) / 4 (thorough) over an 8-op alphabet "
-        "(add/move/remove of two entities on and around the borders of a 3x3 grid) followed by 4 queries; random: 4-72 ops "
+        "(add/move/remove of two entities on and around the borders of a 3x3 grid) followed by 4 queries; boundary sweep: on 5 grids, "
+        "for every zone border and every clamp boundary (begin, end, begin + zones*size = far edge of the extra last zone) and one "
+        "unit (1/8) to either side, on both axes: entities placed there, moved across it, removed, and queries whose bounding-box "
+        "edge (pos-radius / pos+radius) lies exactly there; crowding: 1/8/9/10/17/40 entities inside one zone (first/last column and "
+        "row, middle; two grids) with the zones stored immediately before and after it occupied before resp. after the crowding, "
+        "queries over the crowded zone, each neighbour and everything, moves between the two zones, removals ascending and "
+        "descending with a re-add; random: 4-72 ops (every 5th case in crowding mode: up to 130 ops, ids 1..40, 88% of the "
+        "positions inside one zone and its index-neighbours) "
         "on the production grid (Init(-30,-30,30,30,5)) or a random grid (zone sizes 1/8..12.5, up to 14x14 zones, extents "
         "that are / are not multiples of the zone size), coordinates uniform, on/next to zone borders, outside the map and at "
         "+-64, radii 0, exactly reaching an entity (+-1/8; axis-aligned and 3-4-5), negative, larger than the map, r*2^e up to "
         "+Inf ('everything'), searcher = collect-all or the real searchers.FindPlayers; duplicate adds, moves/removes of absent "
-        "ids, degenerate Init parameters. For these inputs every float32 operation before a comparison is exact "
+        "ids, degenerate Init parameters. A panic anywhere in the space packages (either stream) becomes the observation BPanic / BFloat false of that operation. For these inputs every float32 operation before a comparison is exact "
         "(differences of multiples of 1/8 below 2^10; squares are multiples of 1/64 below 2^22; sqrt(s) and r differ by "
         "more than half an ulp unless s = r^2, where both comparisons agree; non-integral quotients m/s are at least 1/s "
         "away from an integer), so id sets are compared exactly, without a tolerance band. float stream (search support, "
